@@ -394,6 +394,20 @@ fn random_history(t: &mut Tape, gates: &Gates) -> Vec<Note> {
                 let pfx = format!("{}{}c_", ["a", "b"][u], j);
                 docs[u].push(format!("PROGRAM {p}p\nVAR\n{p}x : INT;\nEND_VAR\n{p}x := {chain}{p}x;\n{p}x := {p}undeclared;\nEND_PROGRAM\n", p = pfx, chain = format!("{}x + ", pfx).repeat(nterms)));
             }
+            // several diagnostics at ONE place (rules that anchor every finding of a declaration at
+            // the same token; a list of names of one undeclared type): as many as the command line
+            // reports, the server publishes - the comparison is one of lists, not of sets
+            if t.ratio(1, 10) {
+                let pfx = format!("{}{}m_", ["a", "b"][u], j);
+                let body = match t.below(5) {
+                    0 => format!("TYPE\n{p}s : STRUCT\nx : INT;\nx : INT;\ny : BOOL;\ny : BOOL;\nEND_STRUCT;\nEND_TYPE\n", p = pfx),
+                    1 => format!("TYPE\n{p}e : (va, vb, va, vc, va);\nEND_TYPE\n", p = pfx),
+                    2 => format!("FUNCTION_BLOCK {p}f\nVAR\nm1, m2, m3 : {p}nowhere;\nEND_VAR\nEND_FUNCTION_BLOCK\n", p = pfx),
+                    3 => format!("TYPE\n{p}s : STRUCT\nx : INT;\nX : DINT;\nx : BOOL;\nEND_STRUCT;\nEND_TYPE\n", p = pfx),
+                    _ => format!("PROGRAM {p}p\nVAR\nn1, n2 : {p}nowhere;\nk : {p}elsewhere;\nEND_VAR\nEND_PROGRAM\n", p = pfx),
+                };
+                docs[u].push(if t.flag() { format!("{}{}", body, text) } else { body });
+            }
             // a text that begins with U+FEFF (an editor that passes the byte-order mark of the file
             // through): whatever the server makes of it, it makes the same of it in every notification
             if t.ratio(1, 12) {
